@@ -493,7 +493,7 @@ func runC08(c *explore.Ctx) {
 	// three inputs: the term enumerator's tie handling (two inputs on the same term while a third
 	// is on a smaller one) cannot show with two
 	mergeSweepDict(c, 3, 4, 1, mergeCfgsQuick[:1], check)
-	zooEach(c, false, func(idx int64, z *zooSeg) {
+	zooEach(c, true, func(idx int64, z *zooSeg) {
 		fs := append([]string{}, z.want.Fields...)
 		if len(fs) > 6 {
 			fs = append(fs[:3], fs[len(fs)-3:]...)
